@@ -220,10 +220,12 @@ where
                     }
                 }
                 Some(DateToken::Number(ref s, Some(ref f))) if s.len() == 2 => {
+                    // Nanoseconds are the finest resolution: further digits are dropped.
+                    let frac = &f[..f.len().min(9)];
                     let secs = u32::from_str_radix(&**s, 10);
-                    let nsecs = u32::from_str_radix(&**f, 10);
+                    let nsecs = u32::from_str_radix(frac, 10);
                     if let (Ok(secs), Ok(nsecs)) = (secs, nsecs) {
-                        let nsecs = nsecs * 10u32.pow(9 - f.len() as u32);
+                        let nsecs = nsecs * 10u32.pow(9 - frac.len() as u32);
                         out.second = Some(secs);
                         out.nanosecond = Some(nsecs);
                         Ok(())
